@@ -1,4 +1,5 @@
 import CC.Model.Prims
+import CC.Spec.Cover
 /-! # Line-protocol driver for the model
 
 One operation per input line, one canonical output line per input line. The Rust harness
@@ -191,7 +192,8 @@ def step (st : St) (line : String) : St × String :=
   match line.trimAscii.toString.splitOn " " with
   | ["reset"] => ({}, "ok")
   | ["parse", h] =>
-    match strOfHex h with
+    -- the text is prefixed by `x` so that the empty string is a token too
+    match strOfHex (String.ofList (h.toList.drop 1)) with
     | none => (st, "bad-hex")
     | some txt =>
       match parse txt with
@@ -382,6 +384,20 @@ def step (st : St) (line : String) : St × String :=
         match (policyOf p).bind m.structure_.encRights with
         | .error e => (st, errLine e)
         | .ok rs => (st, "ok " ++ rightsStr rs)
+  | ["covers", ms, ks, pu, pe] =>
+    -- the *specification* verdict: name-level cover relation on the key's structure
+    match handle 'M' ms, handle 'K' ks with
+    | some i, some k =>
+      match getSlot st.msks i, getSlot st.mpks k with
+      | some m, some mpk =>
+        match policyOf pu, policyOf pe with
+        | .ok u, .ok e =>
+          if Spec.policyWf m.structure_ u && Spec.policyWf mpk.structure_ e then
+            (st, if Spec.covers m.structure_ u e then "ok 1" else "ok 0")
+          else (st, "err NotWellFormed")
+        | _, _ => (st, "err Parse")
+      | _, _ => (st, "err NoSuchHandle")
+    | _, _ => (st, "bad-op")
   | ["dump", h] =>
     match handle 'M' h, handle 'K' h, handle 'U' h, handle 'E' h with
     | some i, _, _, _ =>
